@@ -1,9 +1,10 @@
 package openapi
 
 import (
+	"context"
+
 	"github.com/getkin/kin-openapi/openapi3"
 	"github.com/grafana/cog/internal/ast"
-	"github.com/grafana/cog/internal/orderedmap"
 	v "github.com/grafana/cog/internal/zzverif"
 	"github.com/grafana/cog/internal/zzverif/symir"
 )
@@ -160,13 +161,9 @@ func opRefsResolve(defs openapi3.Schemas, names []string) bool {
 }
 
 func opParse(defs openapi3.Schemas) (*ast.Schema, error) {
-	// what GenerateAST does after loading/validating the document
-	g := &generator{schema: ast.NewSchema("p", ast.SchemaMeta{})}
-	if err := g.declareDefinition(defs); err != nil {
-		return nil, err
-	}
-	g.schema.Objects.Sort(orderedmap.SortStrings)
-	return g.schema, nil
+	// the real GenerateAST on the loaded document (validation by the library is skipped: Validate=false),
+	// so that its final ordering of the objects is the code under test, not a copy of it
+	return GenerateAST(context.Background(), &openapi3.T{Components: &openapi3.Components{Schemas: defs}}, Config{Package: "p"})
 }
 
 // VerifParserOpenAPI: C05 — after parsing, every reference resolves; C03 — the result does not
